@@ -7,18 +7,20 @@ import (
 
 	"github.com/yaricom/goNEAT/v4/experiment"
 	"github.com/yaricom/goNEAT/v4/neat/genetics"
+	"time"
 )
 
 // C19 — result statistics equal their definitions for every series.
 //
-// E4: every sequence of length 0..L over a 7-symbol alphabet (so every order
+// E4: every sequence of length 0..L over a 9-symbol alphabet (so every order
 // and tie pattern of every multiset occurs) against textbook definitions, and
 // every experiment assembled from a small menu of generation records against
 // aggregates recomputed directly from the records.
 
 func init() { register("C19", "exploration", runC19, replayC19) }
 
-var c19Alphabet = []float64{-2.5, 0, 1, 1, 3, 1e10, 1e-10}
+// two large values that are close to each other make the mean huge relative to the spread
+var c19Alphabet = []float64{-2.5, 0, 1, 1, 3, 1e10, 1e-10, 1e9 + 4, 1e9 + 7}
 
 func c19Series(idx, length int) experiment.Floats {
 	x := make(experiment.Floats, length)
@@ -304,6 +306,51 @@ func c19EvalExperiment(trials [][]int) [][2]string {
 			fails = append(fails, [2]string{"AvgWinnerStatistics", fmt.Sprintf("(%g,%g,%g,%g), want (%g,%g,%g,%g)", wn, wg, we, wd, sn/k, sg/k, se/k, sd/k)})
 		}
 	}
+	if len(fails) > 0 {
+		return fails
+	}
+	// a usage sequence: query a trial in place, put its generations in chronological order in place
+	// (Generations is a sortable collection), query again. For a trial with exactly ONE solved generation
+	// the winner is unambiguous whatever the order of the records.
+	t0 := time.Unix(1700000000, 0)
+	for ti, gens := range trials {
+		solvedAt := -1
+		nSolved := 0
+		for gi, m := range gens {
+			if c19GenMenu[m].Solved {
+				solvedAt = gi
+				nSolved++
+			}
+		}
+		if nSolved != 1 || len(gens) < 2 {
+			continue
+		}
+		t := &e.Trials[ti]
+		for gi := range t.Generations {
+			t.Generations[gi].Executed = t0.Add(-time.Duration(gi) * time.Second) // recorded newest first
+		}
+		m := gens[solvedAt]
+		want := [4]int{2 + m, 3 + 2*m, 10 * (solvedAt + 1), c19GenMenu[m].Div}
+		var got1, got2 [4]int
+		func() {
+			defer func() {
+				if r := recover(); r != nil {
+					pan = r
+				}
+			}()
+			got1[0], got1[1], got1[2], got1[3] = t.WinnerStatistics()
+			sort.Sort(t.Generations)
+			got2[0], got2[1], got2[2], got2[3] = t.WinnerStatistics()
+		}()
+		if pan != nil {
+			return [][2]string{{"experiment/panic", fmt.Sprintf("WinnerStatistics / sort panicked: %v", pan)}}
+		}
+		if got1 != want {
+			fails = append(fails, [2]string{"WinnerStatistics", fmt.Sprintf("trial %d: %v, the solved generation gives %v", ti, got1, want)})
+		} else if got2 != want {
+			fails = append(fails, [2]string{"WinnerStatistics-after-sort", fmt.Sprintf("trial %d: %v after its generations were sorted in place (before: %v), the solved generation gives %v", ti, got2, got1, want)})
+		}
+	}
 	return fails
 }
 
@@ -372,7 +419,7 @@ func runC19(c *Ctx) {
 	}
 	c.Sample(map[string]interface{}{"experiment_trials": [][]int{{0, 2}, {1}}, "menu": c19GenMenu})
 	c.Extra["max_series_length"] = L
-	c.Assume("series values come from a 7-symbol alphabet; variance/stddev of a one-element series are only required not to panic (the unbiased estimator is 0/0)")
+	c.Assume("series values come from a 9-symbol alphabet; variance/stddev of a one-element series are only required not to panic (the unbiased estimator is 0/0)")
 }
 
 func replayC19(c *Ctx, rp *Replay) (bool, string) {
